@@ -314,6 +314,101 @@ func checkC18(r *core.Result) {
 		})
 		r.Floor("successful returns of UnmarshalJSON", nRet, 4)
 	}
+	// J8: error paths. Inside the two adapter methods an error is returned only (a) for a nil message (UnmarshalJSON),
+	// (b) under `err != nil` where err is the error result of a call into a runtime's JSON package made in the same
+	// statement / the statement before, (c) as the final "unsupported message type" result. The error test of every
+	// such runtime call has the positive form `err != nil`, and probes (`x, ok := v.(T); ok`) use the positive ok.
+	for _, mname := range []string{"(*jsonMarshaler).MarshalJSON", "(*jsonUnmarshaler).UnmarshalJSON"} {
+		f := core.FindFunc(root, mname)
+		if f == nil {
+			continue
+		}
+		isRuntimeCall := func(e ast.Expr) bool {
+			c, ok := e.(*ast.CallExpr)
+			if !ok {
+				return false
+			}
+			fn := staticCallee(info, c)
+			if fn == nil {
+				return false
+			}
+			if _, ok := calleeFamily(fn); ok {
+				return true
+			}
+			if sig, ok := fn.Type().(*types.Signature); ok && sig.Recv() != nil {
+				if _, ok := familyOfImport[namedPkgPath(sig.Recv().Type())]; ok {
+					return true
+				}
+			}
+			return false
+		}
+		nErrIfs := 0
+		last := f.Decl.Body.List[len(f.Decl.Body.List)-1]
+		var walk func(list []ast.Stmt)
+		walk = func(list []ast.Stmt) {
+			for i, st := range list {
+				is, ok := st.(*ast.IfStmt)
+				if !ok {
+					continue
+				}
+				walk(is.Body.List)
+				// probes: positive ok
+				if as, ok := is.Init.(*ast.AssignStmt); ok && len(as.Lhs) == 2 && len(as.Rhs) == 1 {
+					if _, isTA := as.Rhs[0].(*ast.TypeAssertExpr); isTA {
+						okID, _ := as.Lhs[1].(*ast.Ident)
+						condID, _ := is.Cond.(*ast.Ident)
+						r.Ob("J8", mname+" :: probe "+types.ExprString(as.Rhs[0])+" runs on success of the assertion", prog.Pos(is.Pos()), okID != nil && condID != nil && info.Uses[condID] == info.Defs[okID],
+							"the probe's body must run exactly when the type assertion succeeded (condition: "+types.ExprString(is.Cond)+")")
+						continue
+					}
+				}
+				if !returnsError(info, is.Body.List) {
+					continue
+				}
+				nErrIfs++
+				cond := types.ExprString(is.Cond)
+				if strings.Contains(cond, ".msg == nil") {
+					continue // J5 decides its exact form
+				}
+				// the error variable tested and where it comes from
+				var src ast.Expr
+				var errObj types.Object
+				if as, ok := is.Init.(*ast.AssignStmt); ok && len(as.Rhs) == 1 {
+					src = as.Rhs[0]
+					if id, ok := as.Lhs[len(as.Lhs)-1].(*ast.Ident); ok {
+						errObj = info.Defs[id]
+						if errObj == nil {
+							errObj = info.Uses[id]
+						}
+					}
+				} else if i > 0 {
+					if as, ok := list[i-1].(*ast.AssignStmt); ok && len(as.Rhs) == 1 {
+						src = as.Rhs[0]
+						if id, ok := as.Lhs[len(as.Lhs)-1].(*ast.Ident); ok {
+							errObj = info.Defs[id]
+							if errObj == nil {
+								errObj = info.Uses[id]
+							}
+						}
+					}
+				}
+				okCond := false
+				if b, ok := is.Cond.(*ast.BinaryExpr); ok && b.Op == token.NEQ && isNilIdentExpr(b.Y) {
+					if id, ok := b.X.(*ast.Ident); ok && errObj != nil && info.Uses[id] == errObj {
+						okCond = true
+					}
+				}
+				r.Ob("J8", fmt.Sprintf("%s :: error path `if %s` is the failure of a runtime call", mname, cond), prog.Pos(is.Pos()), okCond && src != nil && isRuntimeCall(src),
+					"an error is returned on a path that is not `err != nil` for the error of a call into a runtime's JSON package: the adapter rejects (or accepts) documents / options on its own authority")
+			}
+		}
+		walk(f.Decl.Body.List)
+		// the final statement is the unsupported-type error
+		if ret, ok := last.(*ast.ReturnStmt); ok {
+			r.Ob("J8", mname+" :: falls through to the unsupported-type error", prog.Pos(last.Pos()), returnsError(info, []ast.Stmt{ret}), "the last statement must return the error for unsupported message types")
+		}
+		r.Floor("error paths of "+mname, nErrIfs, 3)
+	}
 	// nil tests first
 	for _, mname := range []string{"(*jsonMarshaler).MarshalJSON", "(*jsonUnmarshaler).UnmarshalJSON"} {
 		f := core.FindFunc(root, mname)
@@ -332,8 +427,7 @@ func checkC18(r *core.Result) {
 				}
 				break
 			}
-			cond := types.ExprString(is.Cond)
-			if strings.Contains(cond, ".msg == nil") && strings.Contains(cond, "IsNil()") && len(is.Body.List) == 1 {
+			if jsonNilTestShape(is.Cond) && len(is.Body.List) == 1 {
 				if ret, isR := is.Body.List[0].(*ast.ReturnStmt); isR {
 					if strings.HasSuffix(mname, "MarshalJSON") && strings.Contains(mname, "jsonMarshaler") {
 						ok = len(ret.Results) == 2 && isNilIdentExpr(ret.Results[0]) && isNilIdentExpr(ret.Results[1])
@@ -360,4 +454,37 @@ func parentIfOf(rg region) (*ast.IfStmt, bool) {
 		return true
 	})
 	return found, found != nil
+}
+
+// jsonNilTestShape: `X.msg == nil || V.IsNil()` or `X.msg == nil || (V.Kind() == reflect.Ptr && V.IsNil())`.
+func jsonNilTestShape(cond ast.Expr) bool {
+	b, ok := cond.(*ast.BinaryExpr)
+	if !ok || b.Op != token.LOR {
+		return false
+	}
+	l, ok := b.X.(*ast.BinaryExpr)
+	if !ok || l.Op != token.EQL || !isNilIdentExpr(l.Y) || !strings.HasSuffix(types.ExprString(l.X), ".msg") {
+		return false
+	}
+	isNilCall := func(e ast.Expr) bool {
+		c, ok := e.(*ast.CallExpr)
+		return ok && len(c.Args) == 0 && strings.HasSuffix(types.ExprString(c.Fun), ".IsNil")
+	}
+	rgt := b.Y
+	if p, ok := rgt.(*ast.ParenExpr); ok {
+		rgt = p.X
+	}
+	if isNilCall(rgt) {
+		return true
+	}
+	and, ok := rgt.(*ast.BinaryExpr)
+	if !ok || and.Op != token.LAND || !isNilCall(and.Y) {
+		return false
+	}
+	k, ok := and.X.(*ast.BinaryExpr)
+	if !ok || k.Op != token.EQL {
+		return false
+	}
+	ks, kt := types.ExprString(k.X), types.ExprString(k.Y)
+	return strings.HasSuffix(ks, ".Kind()") && (kt == "reflect.Ptr" || kt == "reflect.Pointer")
 }
